@@ -65,25 +65,27 @@ def mk_output(v):
                              terms=[mk_term(t) for t in v["terms"]])
 
 
-def mk_rule(r, decimals=3):
+def mk_rule(r, decimals=3, explicit_weight=False):
     from . import gen
 
     rule = fl.Rule.create(r["text"] if "text" in r else gen.rule_text(r, decimals))
+    if explicit_weight and r.get("weight") is not None:
+        rule.weight = float(r["weight"])  # as a program would set it (the parser is then only exercised on import)
     if not r.get("enabled", True):
         rule.enabled = False
     return rule
 
 
-def mk_block(b, decimals=3):
+def mk_block(b, decimals=3, explicit_weights=False):
     return fl.RuleBlock(name=b["name"], description=b.get("description", ""), enabled=b.get("enabled", True),
                         conjunction=mk_norm(b.get("conjunction"), "t"), disjunction=mk_norm(b.get("disjunction"), "s"),
                         implication=mk_norm(b.get("implication"), "t"), activation=mk_activation(b.get("activation")),
-                        rules=[mk_rule(r, decimals) for r in b["rules"]])
+                        rules=[mk_rule(r, decimals, explicit_weights) for r in b["rules"]])
 
 
-def mk_engine(spec, decimals=3):
+def mk_engine(spec, decimals=3, explicit_weights=False):
     """Build through the public constructors; Engine(...) loads the rules and updates term references."""
     return fl.Engine(name=spec.get("name", "E"), description=spec.get("description", ""),
                      input_variables=[mk_input(v) for v in spec["inputs"]],
                      output_variables=[mk_output(v) for v in spec["outputs"]],
-                     rule_blocks=[mk_block(b, decimals) for b in spec["blocks"]])
+                     rule_blocks=[mk_block(b, decimals, explicit_weights) for b in spec["blocks"]])
